@@ -470,6 +470,7 @@ def run(model, rep):
     from . import shared as _shared
     _shared.rule_len_after_encode(model, rep, "C11.f-hmac-pbkdf", ("passlib.crypto",), minimum=3)
     prim.rule_name_cache(model, rep, "C11.h-name-cache-owner")
+    prim.rule_hash_const(model, rep, "C11.g-digest-names")
     # "for every digest": lookup_hash() resolves digests hashlib lacks (md4 under OpenSSL 3) to the built-in constructor and reports them as
     # supported; compile_hmac() and pbkdf1() use that constructor -- pbkdf2_hmac() must not depend on hashlib knowing the name
     D = "passlib.crypto.digest"
